@@ -22,6 +22,32 @@ CLAIMED = {
     ),
 }
 
+CLAIMED.update({
+    "C08": dict(
+        category="proof", design_ref="DESIGN.md §5 C08",
+        text="MemBroker's five operations are proved against a sequence view (append at the tail, pop exactly the head, length, clear) for all queues "
+             "and all batch lengths (loop invariant); exactly-once FIFO delivery and 'length = routed - retrieved' are proved as an inductive lemma over "
+             "those contracts. SQLiteBroker: statement order / bound parameters / BEGIN IMMEDIATE ownership as glue obligations; the SQL statements' meaning "
+             "is only enumerated (bounded stand-in against the same sequence model, incl. 2000 same-timestamp messages).",
+        technique="contract-based deductive verification (AST->z3 sequence VCs) + inductive lemma over the contracts + bounded history enumeration of both real brokers",
+    ),
+    "C09": dict(
+        category="proof", design_ref="DESIGN.md §5 C09",
+        text="MemBlockingControl: representation invariants I1-I3 (ready = waited-on and not waiting; no empty wait set; every forward edge has its reverse edge) "
+             "are proved to be preserved, waiting_for_results / release_waiters are proved to add / remove exactly the stated edges over the whole graph, and "
+             "get_blocking_invocations is proved to yield only ready runnable ids, never more than max(n,0), all of them when fewer than n, without duplicates. "
+             "Tree completion is liveness and is not claimed.",
+        technique="contract-based deductive verification (AST->z3 VCs with quantified set/map invariants) + bounded wait-graph histories on both real backends",
+    ),
+    "C12": dict(
+        category="proof", design_ref="DESIGN.md §5 C12",
+        text="can_run_atomic_service is proved (real arithmetic, all runner counts, positions, intervals, margins, instants) to authorise a runner exactly inside "
+             "its own window; windows of distinct positions are proved disjoint, margin-separated when the margin fits, non-empty and inside the cycle; single "
+             "runner always, absent runner never. IEEE rounding is outside the proof and covered by a stated float grid on the real functions.",
+        technique="contract-based deductive verification (AST->z3 VCs, nonlinear real arithmetic) + bounded float grid with nextafter neighbours",
+    ),
+})
+
 NOT_YET = {}
 
 
